@@ -101,6 +101,9 @@ package backend
 //@        && called("backend.contains") && !result("backend.contains", 0) && old(pastMarker) && !old(pastMax) \
 //@        && strings.HasPrefix(key0, prefix) && (delimiter == "" || !strings.Contains(strings.TrimPrefix(key0, prefix), delimiter)) :: \
 //@        ensures called("dynamic")
+// completeness: only the bucket root itself (".") is passed over without being looked at; the directory a walk starts from
+// when the prefix names one is a candidate key like any other
+//@   at-return {C07} [only-the-bucket-root-is-passed-over-unexamined] when ownDecision && ncalls("context.Context.Err") == 1 && ret0 == nil && in0 != "." :: ensures called("backend.contains")
 // completeness: the walk is ended early only by a full page, which is then declared truncated
 //@   ensures {C07} [the-walk-stops-early-only-on-a-full-page] ownDecision && ret0 == fs.SkipAll ==> truncated && old(pastMax)
 //@   ensures {C07} [truncation-is-declared-only-on-a-full-page-and-stops-the-walk] truncated != old(truncated) ==> truncated && old(pastMax) && ret0 == fs.SkipAll
